@@ -70,6 +70,12 @@ Definition ins_res (A B : list cell) (fr : Z) (vs : list donor) : list cell :=
   | _, _ => A ++ cells1 fr vs ++ B
   end.
 
+Definition ins_fr (A B : list cell) (fr : Z) (vs : list donor) : Z :=
+  match A, B with
+  | [], [] => fr_after3 seps sepsb fr vs
+  | _, _ => fr_after seps fr vs
+  end.
+
 Lemma flat_cells1 : forall vs fr, flat (cells1 fr vs) = toks1 seps fr vs.
 Proof. induction vs as [|v r IH]; intros fr; [reflexivity|]. cbn [cells1 toks1]. rewrite flat_cons. cbn [c_gap c_body]. now rewrite IH. Qed.
 
@@ -140,8 +146,8 @@ Theorem ins_layout : forall pre pht A B post (items : list item) X vs sbl fr,
   (A = [] -> forall b0 B', B = b0 :: B' ->
       sbl = Some (tid (last (pre ++ pht :: c_gap b0) dft)) \/ (sbl = None /\ X = B)) ->
   donors_ok fr (lay pre pht (A ++ B) post) vs ->
-  (exists fr', insert_tokens ph seps sepsb (lay pre pht (A ++ B) post) items (zlen A) vs (zlen (A ++ B)) sbl fr
-     = (lay pre pht (ins_res A B fr vs) post, map emptied vs, fr', Ok tt))
+  insert_tokens ph seps sepsb (lay pre pht (A ++ B) post) items (zlen A) vs (zlen (A ++ B)) sbl fr
+     = (lay pre pht (ins_res A B fr vs) post, map emptied vs, ins_fr A B fr vs, Ok tt)
   /\ WF ph pre pht (ins_res A B fr vs) post
   /\ map item_of (ins_res A B fr vs) = map item_of A ++ map node_item vs ++ map item_of B.
 Proof.
@@ -163,7 +169,7 @@ Proof.
         by (unfold lay; now rewrite flat_cells3).
       rewrite Eres. rewrite Ed in *.
       split; [|split].
-      * eexists. apply insert_tokens_m3; assumption.
+      * cbn [ins_fr]. apply insert_tokens_m3; assumption.
       * split; [exact Hph|]. split; [|now apply ok_cells3]. rewrite Eres.
         specialize (Hnd' (pre ++ [pht]) post). rewrite <- !app_assoc in Hnd'. cbn [app] in Hnd'.
         apply Hnd'. reflexivity.
@@ -190,7 +196,7 @@ Proof.
       assert (Hin : In ph (ids (P ++ s :: n :: bq ++ flat B' ++ post))).
       { rewrite <- Ed, <- Hph. apply in_lay_ph. }
       split; [|split].
-      * eexists. rewrite Eres. rewrite Ed in *. change (zlen (@nil cell)) with 0.
+      * cbn [ins_fr]. rewrite Eres. rewrite Ed in *. change (zlen (@nil cell)) with 0.
         destruct (Hsbl eq_refl b0 B' eq_refl) as [->|[-> ->]].
         -- rewrite EG, last_last. apply insert_tokens_m2_some; assumption.
         -- apply (insert_tokens_m2_none ph seps sepsb _ P s n _ vs _ fr (item_of b0)); try assumption.
@@ -214,7 +220,9 @@ Proof.
     destruct (toks1_fresh seps vs fr Hdb Hdn) as [T1 T2].
     destruct (fresh_block _ _ _ _ Hdon T1 T2) as [Hg Hnd'].
     split; [|split].
-    + eexists. apply insert_tokens_m1; try assumption.
+    + replace (ins_fr (A' ++ [a]) B fr vs) with (fr_after seps fr vs)
+        by (unfold ins_fr; destruct (A' ++ [a]) eqn:E; [destruct A'; discriminate|reflexivity]).
+      apply insert_tokens_m1; try assumption.
       * pose proof (zlen_nonneg A'). rewrite zlen_app. change (zlen [a]) with 1. lia.
       * rewrite Hitems, prev_last_cells_snoc, Ea, last_last. reflexivity.
     + split; [exact Hph|]. split.
